@@ -10,6 +10,8 @@
 #include <pistache/router.h>
 #include <condition_variable>
 #include <deque>
+#include <dirent.h>
+#include <sys/resource.h>
 
 using namespace Pistache;
 using namespace vf;
@@ -113,10 +115,36 @@ static void churn_loop(int port, int id, int nconn, uint64_t seed, bool tolerate
         if (r.chance(1, 4)) c.rst_close(); else c.close_now();
     }
 }
+// a connection that goes silent (nothing sent, a partial head, or a partial body): with a 1 s read time-out it must get exactly
+// one 408 and then be closed, whichever worker owns it and however many others expire in the same tick
+static void idler_wait(lv::Conn& c, int id, int kind, const std::string& cfg) {
+    std::string got; bool eof = false; double end = lv::now() + 8.0 * lv::load_factor();
+    while (!eof && lv::now() < end) c.read_some(got, 100, 1 << 20, &eof);
+    size_t n = 0; for (size_t p = got.find("HTTP/1.1 "); p != std::string::npos; p = got.find("HTTP/1.1 ", p + 1)) n++;
+    std::string k = "kind" + std::to_string(kind);
+    if (!eof) viol("c09:idle-connection-not-closed", "silent connection " + std::to_string(id) + " (" + k + ") still open 8 s after a 1 s time-out; received '" + got.substr(0, 40) + "'", Json().str("config", cfg).done());
+    else if (n > 1) viol("c09:idle-connection-answered-twice", "silent connection " + std::to_string(id) + " (" + k + ") received " + std::to_string(n) + " responses: " + got.substr(0, 80), Json().str("config", cfg).done());
+    else if (n == 1 && got.compare(0, 12, "HTTP/1.1 408") != 0) viol("c09:idle-connection-wrong-response", "silent connection " + std::to_string(id) + " received " + got.substr(0, 40), Json().str("config", cfg).done());
+    else if (n == 0) viol("c09:idle-connection-closed-without-408", "silent connection " + std::to_string(id) + " (" + k + ") was closed without a response", Json().str("config", cfg).done());
+    else count("idle_connections_timed_out_once");
+}
+// descriptor exhaustion: lower the soft limit to just above the highest open descriptor and plug the holes, so that accept4 fails (EMFILE)
+struct FdExhaust {
+    struct rlimit old{}; std::vector<int> plugs; bool on = false;
+    void begin() {
+        getrlimit(RLIMIT_NOFILE, &old);
+        int maxfd = 2; { DIR* d = opendir("/proc/self/fd"); if (d) { while (dirent* e = readdir(d)) { int f = atoi(e->d_name); if (f > maxfd) maxfd = f; } closedir(d); } }
+        struct rlimit lo = old; lo.rlim_cur = (rlim_t)maxfd + 1; setrlimit(RLIMIT_NOFILE, &lo);
+        for (;;) { int f = dup(0); if (f < 0) break; plugs.push_back(f); }
+        on = true;
+    }
+    void end() { if (!on) return; for (int f : plugs) ::close(f); plugs.clear(); setrlimit(RLIMIT_NOFILE, &old); on = false; }
+};
 static bool port_refuses(int port) { lv::Conn c; bool ok = c.open_to(port); return !ok; }
 
 static void run_config(long idx, int workers, int clients, int nreq, int shutdownMode, uint64_t seed) {
-    // shutdownMode: 0 after load (idle, connections closed), 1 idle with connections open, 2 mid-load, 3 slow handlers in flight, 4 before any load, 5 twice
+    // shutdownMode: 0 after load (idle, connections closed), 1 idle with connections open, 2 mid-load, 3 slow handlers in flight, 4 before any load, 5 twice,
+    // 6 after silent connections on every worker ran into a 1 s read time-out, 7 while accept fails for lack of descriptors
     std::string cfg = "workers=" + std::to_string(workers) + " clients=" + std::to_string(clients) + " requests=" + std::to_string(nreq) + " shutdown=" + std::to_string(shutdownMode);
     set_case(idx, Json().num("i", idx).str("phase", "c09").str("config", cfg).done());
     int threads0 = lv::thread_count();
@@ -124,20 +152,41 @@ static void run_config(long idx, int workers, int clients, int nreq, int shutdow
     g_slow_ms = shutdownMode == 3 ? 300 : 2;
     auto router = make_router();
     auto* ep = new Http::Endpoint(Address(Ipv4::loopback(), Port(0)));
-    ep->init(Http::Endpoint::options().threads(workers).flags(Tcp::Options::ReuseAddr));
+    auto opts = Http::Endpoint::options().threads(workers).flags(Tcp::Options::ReuseAddr);
+    if (shutdownMode == 6) opts.headerTimeout(std::chrono::seconds(1)).bodyTimeout(std::chrono::seconds(1));
+    ep->init(opts);
     ep->setHandler(Rest::Router::handler(router));
     ep->serveThreaded();
     int port = ep->getPort();
     std::vector<std::thread> th; std::vector<ClientStats> stats((size_t)clients);
-    bool tolerate = shutdownMode >= 2 && shutdownMode != 4;
+    bool tolerate = shutdownMode >= 2 && shutdownMode != 4 && shutdownMode != 7;   // (mode 6: a keep-alive client may itself be timed out under load)
     std::vector<std::unique_ptr<lv::Conn>> idleConns;
     if (shutdownMode != 4) for (int k = 0; k < clients; k++) th.emplace_back([&, k] { client_loop(port, k, nreq, seed * 131 + (uint64_t)k, tolerate, stats[(size_t)k], cfg); });
     int churners = shutdownMode == 4 ? 0 : 2;
     std::vector<ClientStats> cstats((size_t)churners);
     for (int k = 0; k < churners; k++) th.emplace_back([&, k] { churn_loop(port, 100 + k, nreq, seed * 977 + (uint64_t)k, tolerate, cstats[(size_t)k], cfg); });
     if (shutdownMode == 1) { for (int k = 0; k < 3; k++) { idleConns.emplace_back(new lv::Conn()); idleConns.back()->open_to(port); } }
+    if (shutdownMode == 6) {
+        // silent connections on every worker, opened together so that they expire in the same tick of the idle scan
+        int ni = 2 * workers + 2; std::vector<std::unique_ptr<lv::Conn>> idlers; std::vector<int> kinds;
+        for (int k = 0; k < ni; k++) { idlers.emplace_back(new lv::Conn()); if (!idlers.back()->open_to(port)) { idlers.pop_back(); continue; } kinds.push_back(k % 3); }
+        for (size_t k = 0; k < idlers.size(); k++) { if (kinds[k] == 1) idlers[k]->send_all("GET /a/idle HTTP/1.1\r\nHo"); else if (kinds[k] == 2) idlers[k]->send_all("POST /a/idle HTTP/1.1\r\nHost: x\r\nContent-Length: 10\r\n\r\nabc"); }
+        std::vector<std::thread> it; for (size_t k = 0; k < idlers.size(); k++) it.emplace_back([&, k] { idler_wait(*idlers[k], (int)k, kinds[k], cfg); });
+        for (auto& t : it) t.join();
+        count("idle_connections", (long)idlers.size());
+    }
+    FdExhaust exhaust; lv::Conn pendingConn;
     if (shutdownMode == 2 || shutdownMode == 3) { Rng r(seed); lv::msleep(r.range(5, 120)); }
     else for (auto& t : th) t.join();
+    if (shutdownMode == 7) {
+        // shutdown while accept fails: a connection is pending on the listening socket and the process is out of descriptors
+        pendingConn.fd = ::socket(AF_INET, SOCK_STREAM | SOCK_NONBLOCK, 0);
+        exhaust.begin();
+        struct sockaddr_in a{}; a.sin_family = AF_INET; a.sin_port = htons((uint16_t)port); a.sin_addr.s_addr = htonl(INADDR_LOOPBACK);
+        ::connect(pendingConn.fd, (struct sockaddr*)&a, sizeof a);
+        Rng r(seed); lv::msleep(r.range(5, 60));
+        count("shutdowns_with_failing_accept");
+    }
     // shutdown + destruction must return: a watchdog turns a hang into a witness
     std::atomic<bool> done{false};
     std::thread dog([&] { double end = lv::now() + 30.0 * lv::load_factor(); while (!done.load() && lv::now() < end) lv::msleep(20); if (!done.load()) { viol("c09:shutdown-does-not-return:mode" + std::to_string(shutdownMode), "shutdown()/destruction did not return within the bound (" + cfg + ")", Json().str("config", cfg).done()); g_distinct.flush(); _exit(3); } });
@@ -145,6 +194,7 @@ static void run_config(long idx, int workers, int clients, int nreq, int shutdow
     if (shutdownMode == 5) ep->shutdown();
     delete ep;
     done = true; dog.join();
+    exhaust.end(); pendingConn.close_now();
     for (auto& t : th) if (t.joinable()) t.join();
     idleConns.clear();
     responder.finish(); g_responder = nullptr;
@@ -173,7 +223,7 @@ int main(int argc, char** argv) {
         int workers = (int)std::vector<int>{1, 2, 4, 8}[r.below(4)];
         int clients = r.range(1, (int)g_opts.num("maxclients", 12));
         int nreq = r.range(5, (int)g_opts.num("maxreq", 120));
-        int mode = (int)(n % 6);
+        int mode = (int)(n % 8);
         uint64_t seed = r.next();
         emit(Json().str("t", "progress").num("i", idx).num("stride", 1).done());
         if (idx <= skip) continue;
